@@ -87,7 +87,10 @@ func init() {
 			ctx context.Context,
 			err error,
 		) (msg string, safeDetails []string, payload proto.Message) {
-			return "", nil, nil
+			// The message is not needed to rebuild the error (the causes
+			// are encoded separately) but a receiver that does not know
+			// this type has nothing else to show.
+			return err.Error(), nil, nil
 		},
 	)
 	errbase.RegisterMultiCauseDecoder(
